@@ -152,7 +152,7 @@ func TestVerifC16Split(t *testing.T) {
 	dir := t.TempDir()
 	ncars := 2
 	if !vt.Quick() {
-		ncars = 10
+		ncars = 24
 	}
 	for ci := 0; ci < ncars; ci++ {
 		nblocks := 6 + rng.Intn(30)
